@@ -147,7 +147,9 @@ def scale_homogeneous(ctx):
     g = P.func('StandardGeometry.distance')
     res.saw(g)
     sym = Sym()
-    ev = Ev(sym=sym)
+    # masks of discarded roots (behind the ray, off the conic branch) are
+    # False for the ray considered
+    ev = Ev(sym=sym, choose=lambda t_, e_: False)
     ev.env['rays'] = 'rays'
     for s in g.node.body:
         if isinstance(s, ast.With):
@@ -380,7 +382,7 @@ def mirror(ctx):
         f = P.func('StandardGeometry.distance')
         res.saw(f)
         sym = Sym()
-        ev = Ev(sym=sym)
+        ev = Ev(sym=sym, choose=lambda t_, e_: False)
         ev.env['rays'] = 'rays'
         for s in f.node.body:
             if isinstance(s, ast.With):
